@@ -72,6 +72,17 @@ def parse_filter_dict(filter_dict: Dict[str, Any]) -> List[FilterExpression]:
                 expressions.append(FilterExpression(column, FilterOp.IS_NOT_NULL, None))
             else:
                 op = _parse_op(op_str)
+                if op in (FilterOp.IN, FilterOp.NOT_IN) and not isinstance(
+                    value, (list, tuple, set, frozenset)
+                ):
+                    # A string is iterable ("ab" would mean IN ('a', 'b')), a
+                    # dict iterates its keys, and a one-shot iterator is consumed
+                    # by file pruning before the row filter sees it (silently
+                    # matching nothing). Only real collections are value sets.
+                    raise ValueError(
+                        f"Filter on '{column}': '{op_str}' needs a list, tuple or set of values, "
+                        f"got {type(value).__name__}"
+                    )
                 expressions.append(FilterExpression(column, op, value))
         elif condition is None:
             # {"column": None} reads as "column IS NULL", but SQL equality with
